@@ -135,7 +135,12 @@ var agentDefs = []agentDef{
 	}},
 	{"tlb", true, func() *agentInst {
 		a, reg := newInst("tlb")
-		comp := tlb.MakeBuilder().WithRegistrar(reg).
+		spec := tlb.DefaultSpec()
+		spec.NumWays = 2
+		spec.MSHRSize = 2
+		spec.Latency = 2
+		spec.NumReqPerCycle = 2
+		comp := tlb.MakeBuilder().WithRegistrar(reg).WithSpec(spec).
 			WithResources(tlb.Resources{
 				TranslationProviderMapper: &mem.SinglePortMapper{Port: messaging.RemotePort("MMU")},
 			}).Build("TLB")
